@@ -4,6 +4,14 @@ import json, sys
 
 CHECKS = {
  # id: (technique, level text, level_note, design_ref)
+ "C01": ("bounded-exhaustive enumeration of resize geometries x filters x algorithms x 13 pixel types x back-ends on the real code, judged against an independent f64 interval model of the documented ideal resampler",
+         "Every 1-D geometry (n_in,n_out up to N, 13-member crop alphabet incl. sub-pixel and edge-flush boxes) x 7 filters x {Convolution,Interpolation} is executed for all pixel types, back-ends and both pass orientations on impulse / constant / sign-adversarial / extreme / LCG contents; every 2-D geometry up to M^4 x 35 algorithms incl. SuperSampling; each destination sample must lie in the ideal interval (1/2 + coefficient quantisation per pass, a few f32 ulps for floats), undefined weights at kernel discontinuities only widen the interval.",
+         "Sizes bounded (N=12/32, M=4/7, long kernels up to 4097 taps in one dimension); contents are the stated finite generator list; the quantisation term uses the precision the implementation reports.",
+         "DESIGN.md §4 C01"),
+ "C02": ("bounded-exhaustive differential enumeration: every SIMD back-end vs the portable one on the same case, plus conformance of the portable integer kernels with the fixed-point coefficient model (tables read through the hook)",
+         "All 1-D geometries up to the bound x 11 filters (incl. custom kernels that force u8 precision 13) x both orientations x 13 types, line counts 1..13/1..70 and long kernels: the portable result must equal clip((2^(p-1)+Σk·x)>>p) bit for bit and SSE4.1/AVX2 must equal the portable result (ints byte-identical, 16-bit alpha ±1, floats 1 ulp per pass); 2-D shapes x algorithms x alpha on/off; alpha multiply/divide at every row width. Every reachable u8 precision 13..21 is hit (recorded in the evidence).",
+         "Custom-kernel geometries whose normalised window has Σ|w| >= 4 are outside the documented head-room and skipped; float alpha-aware cases use alpha in [0.5,1] (the division is ill-conditioned otherwise).",
+         "DESIGN.md §4 C02"),
  "C04": ("bounded-exhaustive enumeration of u32 rectangles / f64 crop boxes / buffer lengths and alignments over every constructor, on both build profiles, exact-arithmetic oracle",
          "Every (left,top,width,height) from an alphabet that includes 2^31±1 and the values next to u32::MAX is given to all six cropped-view constructors on every image size up to 6x6; every crop box over a valid+invalid f64 alphabet (NaN, ±inf, negative, -0, denormal) goes through Resizer::resize in isolated child processes; nine buffer constructors x 13 pixel types x overflow sizes x lengths x alignments. Accept/reject is compared with exact u64/u128/TwoSum arithmetic and accepted views are read back against the rectangle model; both the optimised and the debug-assertion build are judged.",
          "Zero-area boxes and f64 boxes that exceed the image by less than the rounding of left+width are don't-care; image sizes are bounded by 7.",
